@@ -4,7 +4,7 @@
 (* successor per disjunct instead of one per parameter value: ~15 instead of ~500 successors per    *)
 (* step), and with extra weight on valid member entries and the standard frame so that accepted     *)
 (* certificates are frequent for large validator sets as well.                                      *)
-EXTENDS QC, Json
+EXTENDS QC, Json, Randomization
 Ok(i) == 3 + 4 * (i - 1)
 AnyKind == RandomElement(1..NumKinds(n))
 AnyEntry == KindOf(AnyKind)
@@ -17,6 +17,8 @@ GenNext ==
      \/ SubmitProposal(RandomElement(Frames))
      \/ \E b \in 1..2 : SubmitProposal("std")
      \/ SubmitVote
+     \* the certificate as the justify of a received proposal at a validator-set change: any two non-empty sets
+     \/ SubmitReceive(RandomSubset(RandomElement(1..n), Members(n)), RandomSubset(RandomElement(1..n), Members(n)))
      \/ Threshold(RandomElement(0..ThrMax), RandomElement(0..ThrMax))
      \/ StartCollect
      \/ VoteMsg(<<AnyEntry>>)
